@@ -44,7 +44,7 @@ type vspec struct {
 	seed           int64
 }
 
-var kindNames = []string{"int-range", "int-range-delta", "uint-range-delta", "double-range", "double-range-delta", "int-list", "int-list-random", "uint-list-random", "double-list", "string-list", "string-list-random", "bool-list", "bool-list-random", "stringlist-rot", "stringlist-random", "delete", "int-plain"}
+var kindNames = []string{"int-range", "int-range-delta", "uint-range-delta", "double-range", "double-range-delta", "int-list", "int-list-random", "uint-list-random", "double-list", "string-list", "string-list-random", "bool-list", "bool-list-random", "stringlist-rot", "stringlist-random", "delete", "int-plain", "uint-range-bigstep", "uint-range-bigstep-up", "int-range-bigstep", "double-range-bigstep", "uint-range-offset", "int-range-negative"}
 
 func (v vspec) String() string {
 	return fmt.Sprintf("%s ts=%d delta=[%d,%d] repeat=%d seed=%d", kindNames[v.kind], v.ts, v.dmin, v.dmax, v.repeat, v.seed)
@@ -82,6 +82,21 @@ func (v vspec) build(name string) *fpb.Value {
 		out.Value = &fpb.Value_Delete{Delete: &fpb.DeleteValue{}}
 	case 16:
 		out.Value = &fpb.Value_IntValue{IntValue: &fpb.IntValue{Value: 7}}
+	// cumulative ranges whose step can be larger than the whole range (the
+	// result has to saturate at the nearer boundary), and ranges that do not
+	// start at zero
+	case 17:
+		out.Value = &fpb.Value_UintValue{UintValue: &fpb.UintValue{Value: 3, Distribution: &fpb.UintValue_Range{Range: &fpb.UintRange{Minimum: 2, Maximum: 5, DeltaMin: -7, DeltaMax: 7}}}}
+	case 18:
+		out.Value = &fpb.Value_UintValue{UintValue: &fpb.UintValue{Value: 1, Distribution: &fpb.UintValue_Range{Range: &fpb.UintRange{Minimum: 0, Maximum: 3, DeltaMin: 4, DeltaMax: 9}}}}
+	case 19:
+		out.Value = &fpb.Value_IntValue{IntValue: &fpb.IntValue{Value: 0, Distribution: &fpb.IntValue_Range{Range: &fpb.IntRange{Minimum: -1, Maximum: 2, DeltaMin: -5, DeltaMax: 5}}}}
+	case 20:
+		out.Value = &fpb.Value_DoubleValue{DoubleValue: &fpb.DoubleValue{Value: 1, Distribution: &fpb.DoubleValue_Range{Range: &fpb.DoubleRange{Minimum: 0.5, Maximum: 3, DeltaMin: -5, DeltaMax: 5}}}}
+	case 21:
+		out.Value = &fpb.Value_UintValue{UintValue: &fpb.UintValue{Value: 3, Distribution: &fpb.UintValue_Range{Range: &fpb.UintRange{Minimum: 2, Maximum: 5}}}}
+	case 22:
+		out.Value = &fpb.Value_IntValue{IntValue: &fpb.IntValue{Value: -1, Distribution: &fpb.IntValue_Range{Range: &fpb.IntRange{Minimum: -2, Maximum: 1}}}}
 	}
 	return out
 }
@@ -287,6 +302,26 @@ func inOptions(kind int, v *fpb.Value) string {
 	case 16:
 		if x := v.GetIntValue().Value; x != 7 {
 			return fmt.Sprintf("plain int changed to %d", x)
+		}
+	case 17, 21:
+		if x := v.GetUintValue().Value; x < 2 || x > 5 {
+			return fmt.Sprintf("uint %d outside [2,5]", x)
+		}
+	case 18:
+		if x := v.GetUintValue().Value; x > 3 {
+			return fmt.Sprintf("uint %d outside [0,3]", x)
+		}
+	case 19:
+		if x := v.GetIntValue().Value; x < -1 || x > 2 {
+			return fmt.Sprintf("int %d outside [-1,2]", x)
+		}
+	case 20:
+		if x := v.GetDoubleValue().Value; x < 0.5 || x > 3 {
+			return fmt.Sprintf("double %v outside [0.5,3]", x)
+		}
+	case 22:
+		if x := v.GetIntValue().Value; x < -2 || x > 1 {
+			return fmt.Sprintf("int %d outside [-2,1]", x)
 		}
 	}
 	return ""
